@@ -388,6 +388,10 @@ void do_plan(int tier)
             break;
           }
         }
+        // two times out of three the last byte of that white-space run (the one next to a tag or to text)
+        if (sim_plan(3) != 0)
+          while (at + 1 < n && (st->bytes[at + 1] == ' ' || st->bytes[at + 1] == '\n' || st->bytes[at + 1] == '\t' || st->bytes[at + 1] == '\r'))
+            at++;
         static const unsigned char odd[] = {0x0b, 0x0c, 0x85, 0xa0, 0x1c, 0x7f};
         st->fault_arg = (long)at;
         st->bytes[at] = odd[sim_plan(sizeof odd)];
